@@ -119,6 +119,12 @@ def generate(seed: int, tier: str = "quick") -> dict:
             if rf.random() < 0.08:
                 o["a"]["amount"] = {"f": "debt", "x": rf.choice(["1.001", "2"])}
                 faults.append({"kind": "reject:repay:beyond_debt", "bar": b})
+            elif rf.random() < 0.08 and not o["a"].get("with_collateral"):
+                # reject:repay:wallet short - the wallet is first lowered below the amount to pay back
+                o["a"]["amount"] = rf.choice([None, {"f": "debt", "x": "1"}, {"f": "debt", "x": "0.9"}])
+                program.append({"op": "broker.drain_to", "a": {"token": t, "amount": {"f": "debt", "x": rf.choice(["0.1", "0.5", "0.85"])}},
+                                "bar": b, "phase": phase, "m": "aave0"})
+                faults.append({"kind": "reject:repay:wallet_short", "bar": b})
         o.update({"bar": b, "phase": phase, "m": "aave0"})
         # split/merge twin: how run Y re-issues this flow
         if rp.random() < 0.6:
